@@ -49,10 +49,11 @@ M = [
     ("c20_el_index", "phonopy/qha/core.py", "el_energy = self._electronic_energies[i]", "el_energy = self._electronic_energies[0]", ["C20"]),
     ("c20_bm_coefficient", "phonopy/qha/eos.py", "9.0 / 16", "9.0 / 8", ["C20"]),
     ("c20_expansion_dt", "phonopy/qha/core.py", "dt = self._temperatures[i + 1] - self._temperatures[i - 1]", "dt = self._temperatures[i + 1] - self._temperatures[i]", ["C20"]),
-    ("c16_forces_precision", "phonopy/interface/phonopy_yaml.py", "__NOPE__", "__NOPE__", []),
+    ("c16_extended_symbol_dropped", "phonopy/structure/atoms.py", 'if "extended_symbol" in x:  # like Fe1\n                symbols.append(x["extended_symbol"])\n            elif "symbol" in x:  # like Fe\n                symbols.append(x["symbol"])', 'if "symbol" in x:  # like Fe\n                symbols.append(x["symbol"])\n            elif "extended_symbol" in x:  # like Fe1\n                symbols.append(x["extended_symbol"])', ["C16"]),
     ("c17_bohr_dropped", "phonopy/interface/calculator.py", 'units["distance_to_A"] = Bohr\n        units["force_to_eVperA"] = Rydberg / Bohr', 'units["distance_to_A"] = 1.0\n        units["force_to_eVperA"] = Rydberg / Bohr', ["C17"]),
     ("c17_vasp_sort_unstable", "phonopy/interface/vasp.py", "return sorted(range(len(keys)), key=keys.__getitem__)", "return sorted(range(len(keys)), key=lambda i: (keys[i], -i))", ["C17"]),
-    ("c16_magmom_dropped", "phonopy/interface/phonopy_yaml.py", "__NOPE2__", "__NOPE2__", []),
+    ("c16_magmom_component", "phonopy/structure/atoms.py", "{mag[1]:.8f}, {mag[2]:.8f}]", "{mag[1]:.8f}, {mag[1]:.8f}]", ["C16"]),
+    ("c16_priority_yaml_beats_filename", "phonopy/cui/load_helper.py", "    if force_sets_filename is not None:\n        _dataset = parse_FORCE_SETS(natom=natom, filename=force_sets_filename)\n        _force_sets_filename = force_sets_filename\n    elif forces_in_dataset(dataset):\n        _dataset = dataset\n        _force_sets_filename = phonopy_yaml_filename\n", "    if forces_in_dataset(dataset):\n        _dataset = dataset\n        _force_sets_filename = phonopy_yaml_filename\n    elif force_sets_filename is not None:\n        _dataset = parse_FORCE_SETS(natom=natom, filename=force_sets_filename)\n        _force_sets_filename = force_sets_filename\n", ["C16"]),
     ("c15_gonze_cache_kept", "phonopy/harmonic/dynamical_matrix.py", "        self._Gonze_force_constants = None\n        self._with_full_terms = with_full_terms", "        self._with_full_terms = with_full_terms", []),
     ("c13_python_int64_permutations", "phonopy/harmonic/force_constants.py", '    return np.array(rot_map_syms, dtype="intc", order="C")', '    return np.array(rot_map_syms, dtype="int64", order="C")', []),
 ]
